@@ -53,6 +53,10 @@ pub struct Scn {
     /// templates): they define nothing outside themselves
     #[serde(default)]
     pub derived: Vec<(usize, Vec<(String, String)>)>,
+    /// a <defaults> block whose entries carry attributes named like the probed variables:
+    /// defaults style elements, they never define variables
+    #[serde(default)]
+    pub defaults: bool,
 }
 
 // ---------------------------------------------------------------------------------------------
@@ -337,6 +341,9 @@ pub fn render(scn: &Scn, fwd: bool) -> String {
         }
         s.push_str("  </specs>\n");
     }
+    if scn.defaults {
+        s.push_str("  <defaults><_ match=\"rect text var\" vz=\"DLEAK\" fill=\"dleak\"/><rect va=\"dva\"/><text vb=\"dvb\"/></defaults>\n");
+    }
     render_body(&scn.body, 1, false, &mut s, &mut line);
     if fwd {
         s.push_str(&anchors);
@@ -588,6 +595,7 @@ impl Engine for C15 {
             body,
             anchors,
             derived,
+            defaults: index % 5 == 2,
         })
         .unwrap()
     }
@@ -828,6 +836,11 @@ impl Engine for C15 {
         for nb in variants(&scn.body) {
             let mut s = scn.clone();
             s.body = nb;
+            out.push(s);
+        }
+        if scn.defaults {
+            let mut s = scn.clone();
+            s.defaults = false;
             out.push(s);
         }
         for di in 0..scn.derived.len() {
